@@ -140,9 +140,14 @@ MUTANTS = (
 def run_machine(draws, state, tier):
     res = CaseResult()
     V = res.violations
-    pool = [e for e in state["pool"] if e.kind == "sdl"]
     st = draws.stream("ops")
-    entry = pool[st.below(len(pool), "schema")]
+    # a schema of its own for every case (the per-invocation pool is only
+    # needed by C12's restart table)
+    from .pool import PoolEntry, gen_sdl, join_sdl
+    sdl_seed = st.below(1 << 30, "sdl_seed")
+    _parts = gen_sdl(sdl_seed, 0)
+    entry = PoolEntry("sdl@%d" % sdl_seed, join_sdl(_parts), None, "sdl",
+                      _parts)
     seq = []
     scenario = st.weighted((4, 1, 1), "scenario")
     if scenario == 2:
@@ -261,7 +266,7 @@ def run_machine(draws, state, tier):
                 by_arg.setdefault(a.name, []).append((tname, fname))
         shared_args = sorted(a for a, fs in by_arg.items() if len(fs) >= 2)
         for step in range(n_ops):
-            op = st.weighted((5, 3, 1, 1, 2 if shared_args else 0, 1), "op")
+            op = st.weighted((5, 3, 1, 2, 4 if shared_args else 0, 1), "op")
             # 0 reassign, 1 check(validate), 2 check(query), 3 shuffled
             # rebuild, 4 one callable registered on several fields
             if op == 4:
